@@ -5,6 +5,9 @@ import (
 	"errors"
 	"io"
 	"io/ioutil"
+	"os"
+	"strings"
+	"testing/iotest"
 
 	"github.com/tyler-sommer/stick"
 )
@@ -99,3 +102,43 @@ func (t *failingTemplate) Contents() io.Reader {
 type failingReader struct{}
 
 func (failingReader) Read([]byte) (int, error) { return 0, ErrInjected }
+
+// ShapedLoader is a memory loader whose templates hand out their source through readers of different, all
+// legitimate, shapes: everything at once, a byte at a time, in halves, and the last bytes together with io.EOF.
+// The shape is a function of the template's name and text, so that a replayed case meets the same reader.
+type ShapedLoader struct {
+	Templates map[string]string
+}
+
+type shapedTemplate struct {
+	name, src string
+}
+
+func (t *shapedTemplate) Name() string { return t.name }
+
+func (t *shapedTemplate) Contents() io.Reader {
+	h := uint32(2166136261)
+	for _, c := range []byte(t.name + "\x00" + t.src) {
+		h = (h ^ uint32(c)) * 16777619
+	}
+	var r io.Reader = strings.NewReader(t.src)
+	switch (h >> 7) % 6 {
+	case 1:
+		return iotest.OneByteReader(r)
+	case 2:
+		return iotest.HalfReader(r)
+	case 3:
+		return iotest.DataErrReader(r)
+	case 4:
+		return iotest.DataErrReader(iotest.HalfReader(r))
+	}
+	return r
+}
+
+func (l *ShapedLoader) Load(name string) (stick.Template, error) {
+	src, ok := l.Templates[name]
+	if !ok {
+		return nil, &os.PathError{Op: "load", Path: name, Err: os.ErrNotExist}
+	}
+	return &shapedTemplate{name, src}, nil
+}
